@@ -722,6 +722,7 @@ func run(cx *lib.Ctx) {
 	for i := 0; i < nb; i++ {
 		bodyCase(cx, R.Fork(), i)
 	}
+	directedBlockSpecs(cx)
 	share := func(prefix string) {
 		d := res.Distribution
 		t := d[prefix+"same-result"] + d[prefix+"differ-marked"] + d[prefix+"differ-mark-lost"] + d[prefix+"skipped-error"]
